@@ -66,6 +66,11 @@ CHECKS = {
    "Complete (size x limit) product up to size 40 (thorough 120), sparse limits up to 260, clamp sizes around the 10000 maximum, 3 sort orders, two runtimes; each scan compared item-by-item with the collection.",
    "the handler is harness code written as the documentation shows; kernel loopback; serde_json",
    "DESIGN.md section 4/C15"),
+ "C18": ("E3", "fault_enumeration",
+   "exhaustive enumeration of single faults (every truncation point x 3 endings, every single-byte substitution from an 8-byte set, every deletion, of 7 base requests; header-byte, size, framing, HTTP/2-preface, reset-burst faults) and of all fault sequences of depth 2 (thorough 3) over a 24-element representative set, against a real server in both task modes, with a health probe after every event",
+   "After every fault event a fresh connection must get 200 from /health; all bytes the server returned must parse as complete valid HTTP/1.1 responses (HTTP/2 frames after the preface); a first request that the conservative classifier calls definitely malformed must not be answered below 400.",
+   "conservative request classifier (only the listed definite malformations decide); partial answers on still-open connections are not judged; HTTP/1.1 over TCP only",
+   "DESIGN.md section 4/C18"),
 }
 
 NOT_YET = {
@@ -105,7 +110,7 @@ def main():
       },
       "engines": [
         {"name": "E1", "path": "harness/src/e1.rs + harness/src/bin/e1.rs", "serves_properties": ["C01","C02","C04","C06"], "kind_free_text": "stateless explicit exploration of registration histories on the real ApiDescription/HttpRouter"},
-        {"name": "E3", "path": "harness/src/live.rs + harness/src/e3.rs + harness/src/bin/e3.rs", "serves_properties": ["C16","C17"], "kind_free_text": "live event explorer: real HttpServer on loopback, raw TCP client, gated handlers, in-memory slog drain; stateless replay of every history"},
+        {"name": "E3", "path": "harness/src/live.rs + harness/src/e3.rs + harness/src/bin/e3.rs", "serves_properties": ["C16","C17","C18"], "kind_free_text": "live event explorer: real HttpServer on loopback, raw TCP client, gated handlers, in-memory slog drain; stateless replay of every history"},
         {"name": "E2", "path": "harness/src/bin/c03.rs c05.rs ...", "serves_properties": ["C03","C05","C12","C13","C14","C15"], "kind_free_text": "bounded-exhaustive input enumeration against reference functions, on the real public functions"},
       ],
       "checks": checks,
